@@ -23,14 +23,17 @@ Definition canon_zero_res (r : res N) : res N := match r with Ok b => Ok (canon_
                             user similarity, plain and wrapped in ONE CachedSimilarity for all queries *)
 Inductive input_C05 :=
 | CMat (r c : N) (data : list N)
-| CSets (table : list (N * N * N)) (queries : list (list N * list N)).
+| CSets (table : list (N * N * N)) (queries : list (list N * list N)) (table2 : list (N * N * N)).
 
 (* matrix: row maxima, column maxima, funSimAvg, funSimMax, BMA;
    sets: per query (funSimAvg, funSimMax, BMA) plain and the same three through the cache, and
    the pairs for which the cache called the wrapped similarity, in call order *)
 Inductive obs_C05 :=
 | OMat (rm cm : res (list N)) (avg mx bma : res N)
-| OSets (plain cached : list (res N * res N * res N)) (inner_calls : list (N * N)).
+| OSets (plain cached : list (res N * res N * res N)) (inner_calls : list (N * N))
+        (* a SECOND cached adaptor, around another similarity (table2), alive at the same time and used
+           alternately with the first on the same queries: funSimAvg plain and through that cache *)
+        (other_plain other_cached : list (res N)).
 
 Definition mat_of (r c : N) (data : list N) : matrix f32 := mkMat (nat_of r) (nat_of c) (map of_bits data).
 
@@ -55,15 +58,23 @@ Definition run_C05 (i : input_C05) : obs_C05 :=
       let '(a, x, b) := calc3 m in
       if m_is_empty m then OMat (Ok []) (Ok []) a x b
       else OMat (bitsl_res (c_rowmax m)) (bitsl_res (c_colmax m)) a x b
-  | CSets table queries =>
+  | CSets table queries table2 =>
       let f := table_sim table in
+      let f2 := table_sim table2 in
+      let avg_of (r : res N * res N * res N) : res N := let '(a, _, _) := r in a in
+      let other_plain := map (fun q : list N * list N => avg_of (snd (group3 (plain_sim f32 f2) (fst q) (snd q) tt))) queries in
+      let other_cached :=
+        snd (fold_left (fun (st : cache f32 * list (res N)) (q : list N * list N) =>
+                     let (c, acc) := st in
+                     let (c', r) := group3 (cached_sim f32 f2) (fst q) (snd q) c in (c', acc ++ [avg_of r]))
+                  queries ([], [])) in
       let plain := map (fun q : list N * list N => snd (group3 (plain_sim f32 f) (fst q) (snd q) tt)) queries in
       let '(c, cached) :=
         fold_left (fun (st : cache f32 * list (res N * res N * res N)) (q : list N * list N) =>
                      let (c, acc) := st in
                      let (c', r) := group3 (cached_sim f32 f) (fst q) (snd q) c in (c', acc ++ [r]))
                   queries ([], []) in
-      OSets plain cached (rev (map (fun e : N * N * f32 => fst e) c))
+      OSets plain cached (rev (map (fun e : N * N * f32 => fst e) c)) other_plain other_cached
   end.
 
 (* ---------------- the property, by index arithmetic on the row-major data ---------------- *)
@@ -118,8 +129,12 @@ Definition spec_C05 (i : input_C05) (o : obs_C05) : bool :=
             else resl_is rm (map (fun l => to_bits (ref_max32 l)) (ref_rows32 m))
                  && resl_is cm (map (fun l => to_bits (ref_max32 l)) (ref_cols32 m)))
       else true     (* |data| <> rows*cols: outside Matrix's contract *)
-  | CSets table queries, OSets plain cached calls =>
-      (Nlen plain =? Nlen queries) && (Nlen cached =? Nlen queries)
+  | CSets table queries table2, OSets plain cached calls oplain ocached =>
+      (Nlen plain =? Nlen queries) && (Nlen cached =? Nlen queries) && (Nlen oplain =? Nlen queries) && (Nlen ocached =? Nlen queries)
+      (* two cached adaptors around different similarities do not see each other's memo *)
+      && forallb (fun qp : (list N * list N) * res N =>
+                    let '((a, b), r) := qp in resN_is r (to_bits (ref_calc32 FunSimAvg (matrix_of_table table2 a b)))) (combine queries oplain)
+      && forallb (fun pc : res N * res N => match fst pc with Ok x => resN_is (snd pc) x | _ => false end) (combine oplain ocached)
       (* the documented combination of the |A| x |B| matrix of pairwise similarities *)
       && forallb (fun qp : (list N * list N) * (res N * res N * res N) =>
                     let '((a, b), r) := qp in res3_is r (ref3 (matrix_of_table table a b))) (combine queries plain)
